@@ -37,6 +37,14 @@ def emit_session(sess, path, qsteps=None):
             skipped.append((st["i"], str(e)))
             continue
         lines.append("Eval vm_compute in (%d, %s)." % (st["i"], term))
+        pool_msgs = [m for m in st["msgs"] if m.get("kind") == "fund_pool"]
+        if pool_msgs:
+            # byte-level comparison of every community-pool payload with the model's encoder (case 200000 + i)
+            try:
+                conj = " && ".join(emit.wire_term(m) for m in pool_msgs)
+                lines.append("Eval vm_compute in (%d, if %s then 0 else 1)." % (200000 + st["i"], conj))
+            except ValueError as e:
+                skipped.append((200000 + st["i"], str(e)))
     for i, q in (qsteps or {}).items():
         o = sess.obs0 if i < 0 else sess.steps[i]["post"]
         try:
